@@ -30,7 +30,7 @@ type genPlan struct {
 
 var genPlans = map[string][]genPlan{
 	"C13": {{kind: "registry", quickDepth: 4, thoroughDepth: 6}},
-	"C14": {{kind: "expiry", quickDepth: 3, thoroughDepth: 4}, {kind: "expiry", cfg: Config{Disk: true}, quickDepth: 2, thoroughDepth: 3}},
+	"C14": {{kind: "expiry", quickDepth: 4, thoroughDepth: 5}, {kind: "expiry", cfg: Config{Disk: true}, quickDepth: 3, thoroughDepth: 4}},
 	"C16": {{kind: "feeds", cfg: Config{Disk: true}, quickDepth: 4, thoroughDepth: 5}, {kind: "feeds", quickDepth: 4, thoroughDepth: 5}},
 }
 
